@@ -16,7 +16,7 @@ PROP = {
                  "Grol.R.sim_cacheSet", "Grol.R.sim_evalInfixOp", "Grol.R.cmp_ren", "Grol.R.inspect_ren", "Grol.R.keyEq_ren_left",
                  "Grol.R.keyEq_ren_right", "Grol.R.hashable_ren"],
     "suites": ["session"],
-    "rule": ("session suite: one case = a base history of inputs plus side-effect-free FAILING inputs inserted at chosen positions "
+    "rule": ("[4th session: failing inputs now include failures INSIDE library functions written in grol - depth overflow in keys() of a 450-pair map built in place, errors in abs/log2/printf/keys.] session suite: one case = a base history of inputs plus side-effect-free FAILING inputs inserted at chosen positions "
              "with chosen multiplicities; the history WITH and the history WITHOUT the failing inputs are each run on a fresh persistent "
              "eval.State through the REAL repl.EvalOne (file mode, ShowEval, NoColor, NilAndErr; State.Out and EvalOne's out are two "
              "distinct writers), in 4 configurations (cache on/off x registers on/off). Per input: bytes written to State.Out, bytes "
